@@ -790,6 +790,46 @@ def oracle_fit_structure(mon, a0, b0, fl_rfi, fl_mef, out):
     ok = np.array_equal(np.asarray(fl_rfi, dtype=float), a0, equal_nan=True) and \
         np.array_equal(np.asarray(fl_mef, dtype=float), b0, equal_nan=True)
     mon.chk(ok, 'fit:input-mutated', **d)
+    # the curves are functions of the VALUE handed to them, whatever numeric form it comes in (integer arrays of
+    # any width, lists, Python / NumPy scalars): same answers as for the float64 array of the same values
+    xi = np.unique(np.round(np.geomspace(max(lo / 10, 1), max(hi * 10, 2), 23)))
+    xi = xi[xi < 2 ** 31 - 1]
+    if len(xi):
+        with np.errstate(all='ignore'):
+            for nm, f in (('std_crv', std_crv), ('beads_model', beads_model)):
+                want = np.asarray(f(xi.astype(np.float64)), dtype=float)
+                forms = [('int64', xi.astype(np.int64)), ('int32', xi.astype(np.int32)), ('list-int', [int(v) for v in xi]),
+                         ('list-float', [float(v) for v in xi]), ('tuple-int', tuple(int(v) for v in xi))]
+                if xi.max() < 65536:
+                    forms += [('uint16', xi.astype(np.uint16)), ('>u2', xi.astype('>u2'))]
+                if xi.max() < 32768:
+                    forms.append(('int16', xi.astype(np.int16)))
+                if nm == 'std_crv':
+                    forms.append(('neg-int64', -xi.astype(np.int64)))
+                for fname, v in forms:
+                    try:
+                        got = np.asarray(f(v), dtype=float)
+                    except Exception as e:   # noqa  (a refused form is observed, not judged)
+                        mon.ctx.note('curve-form-refused:%s:%s' % (nm, fname))
+                        continue
+                    w = -want if fname == 'neg-int64' else want
+                    fin2 = np.isfinite(w)
+                    # NumPy evaluates log/power of 16-bit integers in single precision by its own promotion rules:
+                    # those forms are held to single-precision agreement, every other form to double precision
+                    rt = 2e-5 if fname in ('uint16', '>u2', 'int16') else 1e-12
+                    mon.chk(got.shape == w.shape and bool(np.all(np.abs(got[fin2] - w[fin2]) <= rt * (np.abs(w[fin2]) + params[2]) + 1e-300)),
+                            'fit:curve-depends-on-input-form', curve=nm, form=fname, **d)
+                i = len(xi) // 2
+                for fname, v in (('py-int', int(xi[i])), ('np-int64', np.int64(xi[i])), ('py-float', float(xi[i])),
+                                 ('np-float64', np.float64(xi[i]))):
+                    try:
+                        got = float(f(v))
+                    except Exception as e:   # noqa
+                        mon.ctx.note('curve-form-refused:%s:%s' % (nm, fname))
+                        continue
+                    if np.isfinite(want[i]):
+                        mon.chk(abs(got - want[i]) <= 1e-12 * (abs(want[i]) + params[2]) + 1e-300, 'fit:curve-depends-on-input-form',
+                                curve=nm, form=fname, **d)
 
 
 # ------------------------------------------------------------------------------
